@@ -63,7 +63,7 @@ func (r *refLRU) put(k int, v *ed25519.ExpandedPublicKey) {
 
 // history encoded in base 6: digit = 2*key + kind (kind 0 = Get, 1 = Put)
 //
-//verif:ob prop=C18 name=lruCache_histories_and_lock_discipline mode=bv tags=purego guarded=lruCache split=capa:1..2;n:1..3;h:0..215 tsplit=capa:1..2;n:1..4;h:0..1295
+//verif:ob prop=C18,C09 name=lruCache_histories_and_lock_discipline mode=bv tags=purego guarded=lruCache split=capa:1..2;n:1..3;h:0..215 tsplit=capa:1..2;n:1..4;h:0..1295
 func vh_C18_lru() {
 	capa, n, h := verif.Case("capa"), verif.Case("n"), verif.Case("h")
 	lim := 1
